@@ -781,5 +781,24 @@ def r_summary(E):
             if s["returns_self"] and cls != "EmptyExplainableObject" and len(ret_self) != len(rets):
                 res.findings.append(Finding("R-SUMMARY", f"{where} returns-self",
                                             f"{where} no longer returns self on every path", path, fn.lineno, where))
+            if "args" in s["parents"]:
+                # every return path must record the explainable argument: a constructor (checked by R-OPPAR) or a
+                # delegation that hands self over to the argument's own method
+                eparams = [a.arg for a in fn.args.args[1:] if a.arg in E_PARAM_NAMES]
+                for r in rets:
+                    v = r.value
+                    is_ctor = isinstance(v, ast.Call) and (
+                        (isinstance(v.func, ast.Name) and v.func.id in CTOR_PARAMS) or norm(v.func) == "self.__class__")
+                    is_deleg = isinstance(v, ast.Call) and isinstance(v.func, ast.Attribute) and \
+                        isinstance(v.func.value, ast.Name) and v.func.value.id in eparams and \
+                        any(norm(a) == "self" for a in v.args)
+                    if is_ctor or is_deleg or not eparams:
+                        continue
+                    res.findings.append(Finding(
+                        "R-SUMMARY", f"{where} path without the argument :: {norm(r)[:60]}",
+                        f"{where} has a return path (`{norm(r)[:60]}`) that does not record its explainable argument "
+                        f"{eparams} as parent: values computed through that path do not list it among their ancestors, so "
+                        f"an edit of it is not propagated (the analyser's summary, and R-PROV with it, assume it is)",
+                        path, r.lineno, where))
     res.floor = 25
     return res
